@@ -308,6 +308,8 @@ def parse_date(x, **kwargs):
 
 
 def parse_time(x, **kwargs):
+    if isinstance(x, datetime.time):
+        return x
     result = parse_iso(x)
     if result is None:
         raise ValueError(f"Invalid date.")
